@@ -35,7 +35,12 @@ class PutTrashDir:
             move_file(self.fs, path, paths.backup_copy_path)
             return Right(None)
         except (IOError, OSError) as error:
-            self.fs.remove_file(paths.trashinfo_path)
+            try:
+                self.fs.remove_file(paths.trashinfo_path)
+            except (IOError, OSError):
+                # the failed move is what has to be reported: a clean-up
+                # that fails too must not abort the run with a traceback
+                pass
             return Left(UnableToMoveFileToTrash(error))
 
 
